@@ -926,16 +926,86 @@ func (c *Ctx) checkStatementSeparation(r *Report) {
 			continue
 		}
 		fn := c.SSAFn(sep)
-		// path search from entry to return avoiding writes, with `i > 0` assumed true
+		// path search from entry to return avoiding writes, for a statement that is not the first: the last
+		// parameter is the statement's index (i > 0 assumed true) or a "first statement" flag (assumed to have the
+		// value the caller's loop gives it after the first iteration)
 		iParam := fn.Params[len(fn.Params)-1]
-		seen := map[*ssa.BasicBlock]bool{}
+		flagVal, flagKnown := false, false
+		if bt, ok := iParam.Type().Underlying().(*types.Basic); ok && bt.Kind() == types.Bool {
+			// the flag's value on the loop's back edge at the call site(s)
+			for _, site := range c.staticCallSites(fn) {
+				arg := site.Common().Args[len(site.Common().Args)-1]
+				if phi, ok := arg.(*ssa.Phi); ok {
+					for ei, e := range phi.Edges {
+						k, isK := e.(*ssa.Const)
+						if !isK {
+							continue
+						}
+						bv, isB := constBool(k)
+						// the edge that comes from inside the loop (its predecessor is dominated by the phi's block)
+						if isB && phi.Block().Dominates(phi.Block().Preds[ei]) {
+							flagVal, flagKnown = bv, true
+						}
+					}
+				}
+			}
+		}
+		// evalCond: the value of a condition for a non-first statement, when it is decided by the parameter alone
+		var evalCond func(v ssa.Value, from, at *ssa.BasicBlock, depth int) (bool, bool)
+		evalCond = func(v ssa.Value, from, at *ssa.BasicBlock, depth int) (bool, bool) {
+			if depth > 4 {
+				return false, false
+			}
+			switch x := v.(type) {
+			case *ssa.Const:
+				return constBool(x)
+			case *ssa.Parameter:
+				if x == iParam && flagKnown {
+					return flagVal, true
+				}
+			case *ssa.UnOp:
+				if x.Op == token.NOT {
+					if bv, ok := evalCond(x.X, from, at, depth+1); ok {
+						return !bv, true
+					}
+				}
+			case *ssa.BinOp:
+				if x.X == ssa.Value(iParam) && x.Op == token.GTR {
+					if k, ok := constInt(x.Y); ok && k == 0 {
+						return true, true
+					}
+				}
+			case *ssa.Phi:
+				if x.Block() == at && from != nil {
+					for i, p := range at.Preds {
+						if p == from {
+							return evalCond(x.Edges[i], nil, p, depth+1)
+						}
+					}
+				}
+				// `i > 0 || x`: a constant-true edge coming from the block where i > 0 held
+				for i, e := range x.Edges {
+					if k, ok := e.(*ssa.Const); ok && k.Value != nil && k.Value.ExactString() == "true" {
+						pb := x.Block().Preds[i]
+						if pif, ok := pb.Instrs[len(pb.Instrs)-1].(*ssa.If); ok {
+							if bv, ok := evalCond(pif.Cond, nil, pb, depth+1); ok && bv && pb.Succs[0] == x.Block() {
+								return true, true
+							}
+						}
+					}
+				}
+			}
+			return false, false
+		}
+		type wstate struct{ b, from *ssa.BasicBlock }
+		seen := map[wstate]bool{}
 		var trail []*ssa.BasicBlock
-		var walk func(b *ssa.BasicBlock) []*ssa.BasicBlock
-		walk = func(b *ssa.BasicBlock) []*ssa.BasicBlock {
-			if seen[b] {
+		var walk func(b, from *ssa.BasicBlock) []*ssa.BasicBlock
+		walk = func(b, from *ssa.BasicBlock) []*ssa.BasicBlock {
+			if seen[wstate{b, from}] {
 				return nil
 			}
-			seen[b] = true
+			seen[wstate{b, from}] = true
 			trail = append(trail, b)
 			defer func() { trail = trail[:len(trail)-1] }()
 			for _, in := range b.Instrs {
@@ -953,41 +1023,21 @@ func (c *Ctx) checkStatementSeparation(r *Report) {
 				}
 			}
 			if ifi, ok := b.Instrs[len(b.Instrs)-1].(*ssa.If); ok {
-				// i > 0 is true
-				decided := -1
-				for _, cc := range expandCond(ifi, ifi.Cond, 0, 0) {
-					_ = cc
-				}
-				if bin, ok := ifi.Cond.(*ssa.BinOp); ok && bin.X == ssa.Value(iParam) && bin.Op == token.GTR {
-					if k, ok := constInt(bin.Y); ok && k == 0 {
-						decided = 0
+				if bv, ok := evalCond(ifi.Cond, from, b, 0); ok {
+					if bv {
+						return walk(b.Succs[0], b)
 					}
-				}
-				if phi, ok := ifi.Cond.(*ssa.Phi); ok {
-					// `i > 0 || x`: a constant-true edge coming from the block where i > 0 held
-					for i, e := range phi.Edges {
-						if k, ok := e.(*ssa.Const); ok && k.Value != nil && k.Value.ExactString() == "true" {
-							pb := phi.Block().Preds[i]
-							if pif, ok := pb.Instrs[len(pb.Instrs)-1].(*ssa.If); ok {
-								if bin, ok := pif.Cond.(*ssa.BinOp); ok && bin.X == ssa.Value(iParam) && bin.Op == token.GTR {
-									decided = 0
-								}
-							}
-						}
-					}
-				}
-				if decided == 0 {
-					return walk(b.Succs[0])
+					return walk(b.Succs[1], b)
 				}
 			}
 			for _, s := range b.Succs {
-				if p := walk(s); p != nil {
+				if p := walk(s, b); p != nil {
 					return p
 				}
 			}
 			return nil
 		}
-		bad := walk(fn.Blocks[0])
+		bad := walk(fn.Blocks[0], nil)
 		mode := "long form"
 		if sep == compact {
 			mode = "compact form"
